@@ -52,6 +52,7 @@ type Plan struct {
 	DeathAt     int    `json:"death_at"`  // -1: peer lives; k: dies before delivering message k (k == len(msgs): after all)
 	DeathCut    int    `json:"death_cut"` // >0: delivers this many bytes of message death_at, then dies
 	DeadAtStart bool   `json:"dead_at_start,omitempty"`
+	Coalesce    int    `json:"coalesce,omitempty"` // 1: the peer writes without waiting for replies and one read returns everything up to the buffer size; 2: two transport segments at a time
 	UI          UISpec `json:"ui"`
 }
 
@@ -231,6 +232,9 @@ func (Engine) Generate(r *core.RNG, tier string, idx uint64) interface{} {
 	} else if len(p.Msgs) == 0 || p.Msgs[len(p.Msgs)-1].Kind != "done" {
 		p.Msgs = append(p.Msgs, PMsg{Kind: "done", Frag: "whole"})
 	}
+	if r.Chance(1, 5) {
+		p.Coalesce = 1 + r.Intn(2)
+	}
 	return p
 }
 
@@ -263,6 +267,11 @@ func (Engine) Shrinks(plan interface{}) []interface{} {
 	if p.UI.WaitTimer {
 		q := cp()
 		q.UI.WaitTimer = false
+		out = append(out, q)
+	}
+	if p.Coalesce != 0 {
+		q := cp()
+		q.Coalesce = 0
 		out = append(out, q)
 	}
 	if p.NStanzas > 1 {
@@ -348,6 +357,9 @@ type transport struct {
 	closed    bool
 	log       *core.Log
 	simTime   time.Duration
+	// halfOpen: the peer that stopped sending keeps its input open (it closed its output only): client writes
+	// still land in the pipe
+	halfOpen bool
 }
 
 var errLiveness = errors.New("sim: liveness budget exhausted")
@@ -364,7 +376,7 @@ func (t *transport) tick() {
 
 func (t *transport) Write(p []byte) (int, error) {
 	t.tick()
-	if t.dead || t.closed {
+	if (t.dead && !t.halfOpen) || t.closed {
 		t.log.Add("client write %d bytes -> broken pipe", len(p))
 		return 0, io.ErrClosedPipe
 	}
@@ -642,6 +654,25 @@ func (en Engine) converse(p0 *Plan, c *core.Ctx) (verdict *core.Verdict) {
 			// dies before sending anything, but after reading the client's phase 1
 			c.Stats.Inc("fault.death_between_messages")
 		}
+	}
+	if p.Coalesce > 0 && len(tr.segs) > 1 {
+		// a peer that does not wait for the replies: what it wrote sits in the pipe and one read returns several
+		// messages (the order of messages and the replies owed are unchanged)
+		var merged []segment
+		for i, s := range tr.segs {
+			if i > 0 && (p.Coalesce == 1 || i%2 == 1) {
+				m := &merged[len(merged)-1]
+				m.data = append(append([]byte(nil), m.data...), s.data...)
+				m.last = s.last
+				continue
+			}
+			merged = append(merged, s)
+		}
+		tr.segs = merged
+		// (the replies to the earlier messages of a merged read are written after the peer has sent its last byte:
+		// they must not fail for that reason alone, or every such conversation would end in a write error)
+		tr.halfOpen = true
+		c.Stats.Inc("probe.coalesced_delivery")
 	}
 	exp := runModel(p, c)
 
